@@ -847,6 +847,21 @@ def gen_c20(rng, tier, index):
             n.pop('nested', None)
             t2.append(n)
         sc['second'] = {'targets': t2}
+        if rng.random() < 0.35:
+            # ... rewritten with contents of the same length, and with the
+            # files' previous timestamps restored: (mtime, size) do not tell
+            # the two versions apart
+            t3 = []
+            for tg in targets:
+                n = dict(tg)
+                if tg['kind'] == 'lua':
+                    n['lines'] = [('#' + x[1:]) if x.startswith('#')
+                                  else 'v' + x[1:] for x in tg['lines']]
+                elif tg['kind'] != 'self':
+                    n['tabs'] = [['v' + x[1:] if not x.startswith('#')
+                                  else x for x in tab] for tab in tg['tabs']]
+                t3.append(n)
+            sc['second'] = {'targets': t3, 'keep_times': True}
         if rng.random() < 0.3:
             l2 = [dict(ln) for ln in lines]
             for ln in l2:
@@ -989,6 +1004,7 @@ def execute_splice(sc):
             views.append(dict(sc, targets=sc['second']['targets'],
                               lines=_flat_lines(sc['second'].get(
                                   'lines', sc['lines'])),
+                              keep_times=sc['second'].get('keep_times'),
                               enoent=None))
         for rno, view in enumerate(views):
             _splice_round(w, view, res, rno)
@@ -1103,7 +1119,12 @@ def _splice_round(w, sc, res, rno):
                                           code=code)
                 data = refcodec.encode_any(rel, cart)
             if sc.get('enoent') != ti:
-                w.put(rel, data)
+                if rno and sc.get('keep_times'):
+                    if w.put_keep_times(rel, data):
+                        core.bump(res['probes'],
+                                  'rewritten-same-size-same-mtime')
+                else:
+                    w.put(rel, data)
             elif sc.get('enoent_decoy') == 'case':
                 d_, b_ = os.path.split(rel)
                 for alt in (b_.upper(), b_.capitalize()):
